@@ -66,8 +66,9 @@ CHECKS = {
                 'each reduced to exactly its duration-and-pitch part (chord_bekern_note_by_note: no note lost, merged or moved; '
                 'string-level split/join lemmas), the factory dispatches each encoding to its tokenizer and the header '
                 'is ** + prefix + type (tables regenerated from tokenizers.py), non-note tokens with separator-free text are '
-                'identical in the six encodings. Document level: kernpy vs model and vs the generator oracle on documents x six '
-                'encodings x category selections, plus the relations between kernpy\'s six exports.',
+                'identical in the six encodings (HeaderTokenGenerator.new must consist of exactly the three modelled statements). Document level: kernpy vs model and vs the generator oracle on documents x six '
+                'encodings x category selections, plus the relations between kernpy\'s six exports, and batch sessions (many '
+                'documents loaded, exported and dropped in one process) for the header clause.',
         'note': _COMMON_NOTE + 'The note-by-note theorem assumes sub-token texts free of space / separator bytes and non-empty duration / pitch texts (note_subs_ok), which holds for everything the scanner model builds; outside it the reduction is decided by the oracle monitor.',
         'technique': 'Coq proof (definitional equalities + regenerated dispatch tables) + model/impl correspondence + oracle monitor over six encodings',
     },
@@ -190,8 +191,10 @@ CHECKS = {
                 'the inductive descendant relation of that tree (37x37 facts by vm_compute, lifted to all categories); valid '
                 'and match are characterised for include/exclude lists of ANY length (induction-free list lemmas over the '
                 'closure). Correspondence: every query vs the extracted model on all categories, all pairs, all 704x704 '
-                'small include/exclude pairs (thorough; a fifth of the include sets in quick) and random larger sets in '
-                'every argument shape.',
+                'small include/exclude pairs (thorough; a fifth of the include sets in quick), random larger sets in '
+                'every argument shape, and histories in which the caller edits one include / exclude collection in place '
+                'between calls. C11_algebra_is_stateless: the store-site obligation regenerated from the source (no memo on the '
+                'classes, no write to an argument).',
         'note': _COMMON_NOTE + 'Python sets are modelled as lists and compared as sets (membership bit-vectors over the enum order).',
         'technique': 'Coq proof (finite vm_compute facts lifted by forallb_forall + list lemmas) over translator-regenerated hierarchy and README tree; exhaustive model/impl correspondence',
     },
